@@ -115,23 +115,28 @@ def run(ctx):
     wt.start()
     # --- behaviours of the representation graph (four cache configurations = four TLC processes) and the
     #     layout tables: needed by the driver, started first
-    first = [start("beh_" + c, "store/MCStoreRepr.tla", "store/MCStoreReprBeh_%s.cfg" % c, workers=2, timeout=900,
-                   coverage=not quick) for c in BEH_CFGS]
+    first = [start("beh_" + c, "store/MCStoreRepr.tla", "store/MCStoreReprBeh%s_%s.cfg" % ("" if quick else "X", c), workers=2, timeout=900 if quick else 2400)
+             for c in BEH_CFGS]
     first += [start("layouts", "store/SRObject.tla", "store/MCSRObject_layouts.cfg", workers=4, timeout=900),
               start("layouts3", "store/SRObject.tla", "store/MCSRObject_layouts3.cfg", workers=2, timeout=900)]
-    # --- the exhaustive model checks proper run while the driver works
     bg = []
-    if quick:
-        bg.append(start("obj_quick", "store/SRObject.tla", "store/MCSRObject_quick.cfg", workers=6, timeout=1200))
-        bg.append(start("obj_w4", "store/SRObject.tla", "store/MCSRObject_w4quick.cfg", workers=6, timeout=1200))
-        bg.append(start("store", "store/MCStoreRepr.tla", "store/MCStoreRepr_quick.cfg", workers=4, timeout=1200))
-    else:
-        bg.append(start("obj_steps", "store/SRObject.tla", "store/MCSRObject_steps.cfg", workers=6, timeout=3000, heap="6g"))
-        bg.append(start("obj_thorough", "store/SRObject.tla", "store/MCSRObject_thorough.cfg", workers=8, timeout=3000, heap="6g"))
-        bg.append(start("store", "store/MCStoreRepr.tla", "store/MCStoreRepr_thorough.cfg", workers=4, timeout=3000))
-        bg.append(start("store_direct", "store/MCStoreRepr.tla", "store/MCStoreRepr_direct.cfg", workers=3, timeout=3000))
+
+    def start_bg():
+        # --- the exhaustive model checks proper run while the driver works
+        if quick:
+            bg.append(start("obj_quick", "store/SRObject.tla", "store/MCSRObject_quick.cfg", workers=6, timeout=1200))
+            bg.append(start("obj_w4", "store/SRObject.tla", "store/MCSRObject_w4quick.cfg", workers=6, timeout=1200))
+            bg.append(start("store", "store/MCStoreRepr.tla", "store/MCStoreRepr_quick.cfg", workers=4, timeout=1200))
+        else:
+            bg.append(start("obj_steps", "store/SRObject.tla", "store/MCSRObject_steps.cfg", workers=6, timeout=3000, heap="6g"))
+            bg.append(start("obj_thorough", "store/SRObject.tla", "store/MCSRObject_thorough.cfg", workers=8, timeout=3000, heap="6g"))
+            bg.append(start("obj_w4ns3", "store/SRObject.tla", "store/MCSRObject_w4ns3.cfg", workers=6, timeout=3000, heap="6g"))
+            bg.append(start("store", "store/MCStoreRepr.tla", "store/MCStoreRepr_thorough.cfg", workers=4, timeout=3000))
+            bg.append(start("store_direct", "store/MCStoreRepr.tla", "store/MCStoreRepr_direct.cfg", workers=3, timeout=3000))
+
     for t in first:
         t.join()
+    start_bg()      # they share the machine with the driver, not with the runs the driver waits for
     behs = [res.get("beh_" + c) for c in BEH_CFGS]
     lay = [res.get("layouts"), res.get("layouts3")]
     if any(r is None or not r.ok for r in behs + lay):
@@ -155,7 +160,8 @@ def run(ctx):
         ctx.inconclusive("too few behaviours/layouts from TLC: %d / %d" % (len(cases), len(layouts)))
     # vacuity on the model side: every action occurs in the behaviours
     used = set(a for c in cases for a in c["hist"])
-    miss = [a for a in ACTIONS if a not in used]
+    actions = ACTIONS + ([] if quick else ["RemoveODSQ4"])      # the thorough tier runs the extended action set
+    miss = [a for a in actions if a not in used]
     if miss:
         ctx.inconclusive("vacuity: actions never taken in the representation graph: %s" % miss)
 
@@ -195,8 +201,38 @@ def run(ctx):
     if ctx.replay or not rep:
         return
 
+    if not quick:
+        # vacuity on the model side, per action (transitions per action, from the EDGE records of the eight behaviour runs)
+        covsum = {}
+        for cs_ in cases:
+            if cs_["hist"]:
+                covsum[cs_["hist"][-1]] = covsum.get(cs_["hist"][-1], 0) + 1
+        ctx.cover(model_transitions_per_action=covsum)
+        nocov = [a for a in actions if covsum.get(a, 0) == 0]
+        if nocov:
+            ctx.inconclusive("vacuity: no transition of the model through actions %s" % nocov)
+        # self-test of the binding: with the predicted side of the lower half (and HasByHeight) flipped, the
+        # comparison with the real outcomes has to notice - shows that the model predictions really bind
+        st_out = os.path.join(ctx.work, "selftest.json")
+        e2 = vlib.go_env()
+        e2.update(VERIF_OUT=st_out, VERIF_SEED=str(ctx.seed), VERIF_TIER="quick", VERIF_WORK=ctx.work, VERIF_CASES=cases_path,
+                  VERIF_BUDGET="25", VERIF_PER_LAYOUT="0", VERIF_WIDE="0", VERIF_SELFTEST="1")
+        try:
+            subprocess.run(["go", "test", "-tags", "verif", "-count=1", "-vet=off", "-run", "TestDriver", "./drivers/storerepr"],
+                           cwd=vlib.HARNESS, env=e2, stdout=subprocess.DEVNULL, stderr=subprocess.DEVNULL, timeout=900)
+            sr = json.load(open(st_out))
+            drifts = sr.get("counters", {}).get("conformance_drift", 0)
+        except Exception as ex:
+            drifts = -1
+            ctx.note("self-test could not be run: %s" % ex)
+        ctx.cover(selftest_flipped_predictions_detected=int(drifts))
+        if drifts <= 0:
+            ctx.inconclusive("self-test: flipped model predictions were NOT noticed by the driver (the binding does not bind)")
+        else:
+            ctx.log("self-test: %d flipped predictions noticed as conformance drift" % drifts)
+
     # --- vacuity on the code side
-    need = ["action_" + a for a in ACTIONS] + [
+    need = ["action_" + a for a in actions] + [
         "obs_q4_side", "obs_recompute_side", "obs_mem_side", "obs_matched", "disk_matched", "oob_probes",
         "rejected_outside", "rejected_invalidns", "rejected_range_mixed", "rejected_nd_invalidns", "closed_probes",
         "notfound_matched", "cases_k1", "cases_k2", "cases_k4", "cases_emptyblock", "cases_wide", "cases_layout",
